@@ -52,7 +52,7 @@ func TestC01Gate(t *testing.T) {
 			e.Content = gen.UnicodeString(24).Draw(t, lab+"content")
 			gen.Sign(e, gen.Keys[rapid.IntRange(0, gen.NKeys-1).Draw(t, lab+"key")])
 			x := gen.CloneEvent(e)
-			how := rapid.SampledFrom([]string{"genuine", "genuine", "genuine", "content", "created_at", "kind", "tag", "pubkey", "id-digit", "sig-digit"}).Draw(t, lab+"how")
+			how := rapid.SampledFrom([]string{"genuine", "genuine", "genuine", "content", "created_at", "kind", "tag", "pubkey", "id-digit", "sig-digit", "pubkey-off-curve", "sig-r-out-of-range"}).Draw(t, lab+"how")
 			switch how {
 			case "content":
 				x.Content += "!"
@@ -73,6 +73,11 @@ func TestC01Gate(t *testing.T) {
 				x.ID = flipHex(x.ID, rapid.IntRange(0, 63).Draw(t, lab+"pos"))
 			case "sig-digit":
 				x.Sig = flipHex(x.Sig, rapid.IntRange(0, 127).Draw(t, lab+"pos"))
+			case "pubkey-off-curve":
+				x.Pubkey = rapid.SampledFrom(gen.OffCurvePubkeys).Draw(t, lab+"off")
+				x.ID = gen.ComputeID(x)
+			case "sig-r-out-of-range":
+				x.Sig = gen.FieldPrimeHex + x.Sig[64:]
 			}
 			doc := gen.JArr{gen.JStr("EVENT"), gen.WireEventDoc(t, x, lab+"doc.")}
 			text := gen.Render(doc, &gen.RenderOpts{T: t, EscapeVar: rapid.IntRange(0, 3).Draw(t, lab+"esc") == 0})
